@@ -56,6 +56,14 @@ pub mod errors {
     pub use anyhow::{anyhow, Context, Error, Result};
 }
 
+// The reader going away (pager quit, closed pipe) is not an error: stop quietly.
+fn quiet_on_broken_pipe(result: std::io::Result<()>) -> std::io::Result<()> {
+    match result {
+        Err(error) if error.kind() == ErrorKind::BrokenPipe => Ok(()),
+        other => other,
+    }
+}
+
 #[cfg(not(tarpaulin_include))]
 fn main() -> std::io::Result<()> {
     // Do this first because both parsing all the input in `run_app()` and
@@ -86,10 +94,10 @@ pub fn run_app(
     let (call, opt) = cli::Opt::from_args_and_git_config(args, &env, assets);
 
     if let Call::Version(msg) = call {
-        writeln!(std::io::stdout(), "{}", msg.trim_end())?;
+        quiet_on_broken_pipe(writeln!(std::io::stdout(), "{}", msg.trim_end()))?;
         return Ok(0);
     } else if let Call::Help(msg) = call {
-        OutputType::oneshot_write(msg)?;
+        quiet_on_broken_pipe(OutputType::oneshot_write(msg))?;
         return Ok(0);
     } else if let Call::SubCommand(_, cmd) = &call {
         // Set before creating the Config, which already asks for the calling process
@@ -142,7 +150,7 @@ pub fn run_app(
     if _show_config {
         let stdout = io::stdout();
         let mut stdout = stdout.lock();
-        subcommands::show_config::show_config(&config, &mut stdout)?;
+        quiet_on_broken_pipe(subcommands::show_config::show_config(&config, &mut stdout))?;
         return Ok(0);
     }
 
